@@ -172,9 +172,15 @@ LoopSub(s) ==
     /\ rrem' = <<>> /\ rfail' = FALSE /\ rsent' = FALSE /\ rendv' = ""
     /\ UNCHANGED <<reg, sentCur, fanCur, fanStage, repl, stored, rcap, lastPut, repErr, stop, lastid, canc, dbuf, dclosed, errOcc, got, rgot, unfl, regAt, lidKnown, mustGet, pubVars, downVars, ghost>>
 
+\* the presented ID was stored once and has left a bounded replayer since: the property leaves open what such an ID replays -
+\* nothing (it is not found), or everything still stored (a replayer with consecutive IDs knows the ID is older than its window)
+Evicted(s) == /\ lastid[s] # None /\ ~InSeq(lastid[s], stored)
+              /\ \E i \in 1..Len(accepted) : accepted[i] = lastid[s] /\ lastPutOK[i]
+
 RBegin(s) ==
     /\ lpc = "sub" /\ cur = s /\ repl = "alive"
-    /\ lpc' = "subrep" /\ rrem' = ExpectedReplay(s)
+    /\ lpc' = "subrep"
+    /\ rrem' \in (IF Evicted(s) THEN {<<>>, SelectSeq(stored, LAMBDA p : Match(s, p))} ELSE {ExpectedReplay(s)})
     /\ lidKnown' = [lidKnown EXCEPT ![s] = lastid[s] # None /\ InSeq(lastid[s], stored)]
     /\ UNCHANGED <<cur, reg, sentCur, fanCur, fanStage, repl, stored, rcap, lastPut, repErr, rfail, rsent, rendv, spc, stop, lastid, canc, dbuf, dclosed, errOcc, got, rgot, unfl, regAt, mustGet, pubVars, downVars, ghost>>
 
